@@ -305,6 +305,14 @@ def elementary_params(draw, kind, wide=False):
         r2 = r1 + draw(st.sampled_from([0.5, 1.0, 2.0, -0.2, 0.25]))
         if r2 <= 0:
             r2 = r1 + 0.5
+        k_ = draw(st.integers(0, 7))
+        if k_ == 0:
+            # the first point is the apex itself (radius 0)
+            r1 = 0.0
+            labels.append('xyz:apex-point')
+        elif k_ == 1:
+            r1, r2 = r2, 0.0
+            labels.append('xyz:apex-point')
         labels.append('one-sheet-cone')
         return kind, [a, r1, b, r2], labels
     raise ValueError(kind)
